@@ -70,7 +70,8 @@ fn shard(ctx: &Ctx, ifaces: &[&'static IfaceDesc], shard: usize, cases: u64) -> 
     let mut rng = Rng::fork(ctx.seed, 0xC13_0000 + shard as u64);
     for case in 0..cases {
         let iface = *rng.pick(ifaces);
-        let gen = Gen::new(iface, GenOpts { lit: LitOpts { payload_newline: true, wild_payload: true, max_payload: 16 }, max_units: 4, ..Default::default() });
+        let max_payload = if rng.chance(1, 6) { 90 } else { 16 };
+        let gen = Gen::new(iface, GenOpts { lit: LitOpts { payload_newline: true, wild_payload: true, max_payload }, max_units: 4, ..Default::default() });
         let mut stream: Vec<u8> = Vec::new();
         for _ in 0..rng.range(1, 4) {
             match rng.below(5) {
@@ -108,6 +109,25 @@ fn shard(ctx: &Ctx, ifaces: &[&'static IfaceDesc], shard: usize, cases: u64) -> 
         judge(&mut acc, iface.name, "process", &stream, format!("N={}", n), &out);
         par::case_end();
     }
+    // every literal of C03's pool (long digit strings, exponents, every radix and prefix case,
+    // character data, strings, blocks) to every parameter type of the parameter zoo
+    if let Some(pz) = ifaces.iter().find(|i| i.name == "pzoo") {
+        let pool = super::c03::pool(&mut rng, 40);
+        for (li, l) in pool.iter().enumerate() {
+            if li % 64 != shard % 64 {
+                continue;
+            }
+            for t in crate::ev::ALL_TYS {
+                let mut input = format!("P:{} ", t.name().to_ascii_uppercase()).into_bytes();
+                input.extend_from_slice(&l.text);
+                input.push(b'\n');
+                let out = (pz.run)(&RunSpec { inputs: &[&input], writer: WriterKind::Heapless(64), pend_seed: 0 });
+                judge(&mut acc, pz.name, "run", &input, "literal pool, heapless::Vec<u8,64>".into(), &out);
+                let out = (pz.process)(&ProcSpec { stream: &input, n: 256, chunks: &[5, 0, 7], pend_seed: 0, fault_at: None });
+                judge(&mut acc, pz.name, "process", &input, "literal pool, N=256".into(), &out);
+            }
+        }
+    }
     // response formatting directly into a fixed-capacity buffer
     for _ in 0..cases {
         let mut h: heapless::Vec<u8, 512> = heapless::Vec::new();
@@ -121,6 +141,24 @@ fn shard(ctx: &Ctx, ifaces: &[&'static IfaceDesc], shard: usize, cases: u64) -> 
         let _ = block_on(t.write_response(&mut h), 100);
         let _ = block_on(microscpi::Arbitrary(&[1, 2, 3]).write_response(&mut h), 100);
         let _ = block_on(microscpi::Error::Custom(5, "five").write_response(&mut h), 100);
+        h.clear();
+        let ints: [i32; 9] = [1, -2, 3, i32::MIN, 5, 6, 7, 8, i32::MAX];
+        let _ = block_on(ints.as_slice().write_response(&mut h), 100);
+        let floats: [f64; 6] = [f, -f, 1e300, 1e-300, 0.1, f64::MAX];
+        let _ = block_on(floats.as_slice().write_response(&mut h), 100);
+        h.clear();
+        let mut hs: heapless::String<32> = heapless::String::new();
+        let _ = hs.push_str("heap\"less");
+        let _ = block_on(hs.write_response(&mut h), 100);
+        let _ = block_on(microscpi::Characters("MAXimum").write_response(&mut h), 100);
+        let mut hv: heapless::Vec<(u8, bool), 4> = heapless::Vec::new();
+        for k in 0..4u8 {
+            let _ = hv.push((k, k % 2 == 0));
+        }
+        let _ = block_on(hv.write_response(&mut h), 100);
+        let big = [0x5au8; 300];
+        let _ = block_on(microscpi::Arbitrary(&big).write_response(&mut h), 100);
+        let _ = block_on(((true, (i as u8, s)), (g, ())).write_response(&mut h), 100);
         alloc::window_close();
         let (a1, _) = alloc::counted();
         acc.res.evaluations += 1;
